@@ -47,7 +47,15 @@ def _strategy(draw):
     if route in ("gen_params", "graph") and len(bases) <= 40 and draw(st.booleans()):
         node_order = list(draw(st.permutations(range(len(bases)))))
         if draw(st.booleans()):
-            idmap = draw(st.lists(st.integers(0, 99), min_size=len(bases), max_size=len(bases), unique=True))
+            how = draw(st.sampled_from(["random", "random", "reversed", "rotated"]))
+            nb = len(bases)
+            if how == "random":
+                idmap = draw(st.lists(st.integers(0, 99), min_size=nb, max_size=nb, unique=True))
+            elif how == "reversed":
+                idmap = [nb - 1 - i for i in range(nb)]       # the strand listed 3' to 5': key 0 is the last residue
+            else:
+                shift = draw(st.integers(1, max(1, nb - 1)))
+                idmap = [(i + shift) % nb for i in range(nb)]
             key_offset = 0
     # a residue graph need not carry residue ids: they then follow from the node keys 0..n-1
     no_resid = (route in ("gen_params", "graph") and key_offset == 0 and idmap is None
